@@ -119,7 +119,11 @@ Definition expiry_ok (s : sub) (now : N) : bool :=
     else from the implementation's snapshot. *)
 Definition graft_e2e (g' g snap : state) : state :=
   mkSt (next_sid snap) (count snap) (map (graft_sub g' g) (subs snap)) (tab snap) (next_chg snap)
-       (reporting snap) (cancelled snap) (ctxs g') (kv g')
+       (match reporting snap with
+        | Some r => match find_ctx (s_id r) (ctxs g') with Some x => Some (x_sub x) | None => Some r end
+        | None => None
+        end)
+       (cancelled snap) (ctxs g') (kv g')
        (log g') (nchg g') (evn g').
 
 (** monitor step without a snapshot: the monitor's own successor state *)
